@@ -51,7 +51,10 @@ def decorate(pas, cfg, strided_first):
         ng = cfg.get('ghosts', [0] * len(pas))[a]
         if ng and n:
             t = pa.get('tag', only_real_particles=False)
-            t[max(0, n - ng):] = 2
+            # Remote (1) and Ghost (2) alternate; which comes first depends
+            # on the array
+            lo = max(0, n - ng)
+            t[lo:] = [1 + ((k + a) % 2) for k in range(n - lo)]
             pa.align_particles()
 
 
